@@ -45,7 +45,7 @@ Empty == [
     prevDispErr |-> FALSE, carried |-> {},
     opted |-> {}, bs |-> <<>>, bhe |-> <<>>, synthWanted |-> {}, synthDone |-> {},
     pa |-> NoPA, lastPeret |-> [on |-> FALSE, s |-> 0, act |-> "continue", eff |-> "continue"],
-    idle |-> <<>>, idleOrder |-> <<>>, idlePhase |-> FALSE,
+    idle |-> <<>>, idleOrder |-> <<>>, idlePhase |-> FALSE, idleRanNow |-> {},
     dropSrc |-> <<>>, dropCb |-> <<>>, cbMade |-> <<>>, held |-> <<>>, recovered |-> <<>>,
     opStack |-> <<>>, regErrSeen |-> FALSE, faultSeen |-> FALSE, c16off |-> FALSE,
     peSynth |-> FALSE, cmpSnap |-> FALSE, lastSnap |-> NoSnap,
@@ -196,14 +196,12 @@ UpdOp(sh, ev) ==
             LET s == TokSrc(sh, TIdx(ev)) IN
             Touch([base EXCEPT !.life[s] = "out", !.armed[s] = FALSE,
                                !.selfGone[s] = IF InPe(sh, s) THEN TRUE ELSE @], s)
-       [] ev.op = "insert" /\ Has(ev, "s") /\ ev.s \in sh.S ->
-            [base EXCEPT !.cbMade[ev.s] = @ + 1]
        [] ev.op = "dispatch" ->
             [base EXCEPT !.inDisp = TRUE, !.ndisp = @ + 1, !.waitSeen = FALSE, !.batchSeen = FALSE,
                          !.synthSeen = FALSE, !.pendingAtWait = {}, !.touched = {}, !.fired = {}, !.shifted = {},
                          !.lastTimerDl = -2000000000, !.opted = Opted(sh),
                          !.bs = [s \in sh.S |-> 0], !.bhe = [s \in sh.S |-> 0],
-                         !.synthWanted = {}, !.synthDone = {}, !.idlePhase = FALSE,
+                         !.synthWanted = {}, !.synthDone = {}, !.idlePhase = FALSE, !.idleRanNow = {},
                          !.deadBefore = {<<sh.tokens[i].id, sh.tokens[i].ver>> : i \in {j \in DOMAIN sh.tokens : ~LiveTok(sh, j)}}
                                          \ {<<sh.tokens[i].id, sh.tokens[i].ver>> : i \in {j \in DOMAIN sh.tokens : LiveTok(sh, j)}}]
        [] OTHER -> base
@@ -222,7 +220,9 @@ UpdOpret(sh, ev) ==
                                 !.held[s] = sh.decl[s].held = 1, !.recovered[s] = FALSE,
                                 !.dropCb[s] = 0, !.cbMade[s] = 1, !.fuzzy[s] = FALSE]
          IN Rearm(b1, s)
-    [] ev.op = "insert" /\ ev.r \in {"err", "panic"} -> [base EXCEPT !.faultSeen = TRUE, !.cmpSnap = co.ctx = 0]
+    [] ev.op = "insert" /\ ev.r \in {"err", "panic"} ->
+         [base EXCEPT !.faultSeen = TRUE, !.cmpSnap = co.ctx = 0,
+                      !.cbMade = IF co.tgt \in sh.S THEN [@ EXCEPT ![co.tgt] = @ + 1] ELSE @]
     [] ev.op = "disable" /\ ok /\ co.live ->
          IF co.ctx = tgt THEN [base EXCEPT !.deferred[tgt] = "disable", !.selfGone[tgt] = TRUE,
                                            !.misuse = @ \/ sh.deferred[tgt] # "continue"]
@@ -278,6 +278,10 @@ UpdOpret(sh, ev) ==
                       !.carried = IF ev.r = "ok" THEN {} ELSE sh.carried \cup (sh.pendingAtWait \ sh.fired)]
     [] OTHER -> base
 
+\* the deadline of the arming that fires: the event payload, except after a set_deadline() that has not
+\* been followed by update() yet (then the payload is the not-yet-effective deadline; outside C05)
+FiredDl(sh, ev) == IF sh.dlPending[ev.s] THEN sh.armLo[ev.s] ELSE ev.p
+
 UpdCb(sh, ev) ==
   LET s == ev.s
       k == Kind(sh, s)
@@ -288,7 +292,7 @@ UpdCb(sh, ev) ==
        [] k = "chan"  -> IF ev.p >= 0
                          THEN [b0 EXCEPT !.queue[s] = IF @ # <<>> /\ Head(@) = ev.p THEN Tail(@) ELSE @]
                          ELSE [b0 EXCEPT !.closedSeen[s] = TRUE]
-       [] k = "timer" -> [b0 EXCEPT !.firedArm[s] = sh.armId[s], !.lastTimerDl = Max2(@, ev.p)]
+       [] k = "timer" -> [b0 EXCEPT !.firedArm[s] = sh.armId[s], !.lastTimerDl = Max2(@, FiredDl(sh, ev))]
        [] OTHER ->
             IF c \in DOMAIN sh.armedOS[s]
             \* the kernel disarmed / consumed the edge when the batch was collected; a re-registration
@@ -375,7 +379,8 @@ Upd(sh, ev) ==
     [] ev.e = "bhe"     -> [sh EXCEPT !.bhe[ev.s] = @ + 1]
     [] ev.e = "synth_pe" -> [sh EXCEPT !.synthDone = @ \cup {ev.s}, !.peSynth = TRUE]
     [] ev.e = "idle_run" -> IF ev.i \in DOMAIN sh.idle
-                            THEN [sh EXCEPT !.idlePhase = TRUE, !.stack = Append(@, 0 - ev.i), !.idle[ev.i].st = "ran"]
+                            THEN [sh EXCEPT !.idlePhase = TRUE, !.stack = Append(@, 0 - ev.i), !.idle[ev.i].st = "ran",
+                                            !.idleRanNow = @ \cup {ev.i}]
                             ELSE [sh EXCEPT !.idlePhase = TRUE, !.stack = Append(@, 0 - ev.i)]
     [] ev.e = "idle_ret" -> [sh EXCEPT !.stack = IF @ # <<>> THEN FrontOf(@) ELSE @]
     [] ev.e = "snap"    -> IF ev.gone = 1 THEN sh
@@ -433,7 +438,7 @@ ViolCb(sh, ev) ==
   \cup If(IsTimer(sh, s) /\ ~sh.dlPending[s] /\ ev.p > sh.batchUs, {<<"C05", "fired_early">>})
   \cup If(IsTimer(sh, s) /\ sh.dlPending[s] /\ sh.armed[s] /\ sh.armLo[s] > sh.batchUs, {<<"C05", "fired_early">>})
   \cup If(IsTimer(sh, s) /\ sh.armed[s] /\ sh.firedArm[s] = sh.armId[s], {<<"C05", "arming_fired_twice">>})
-  \cup If(IsTimer(sh, s) /\ ev.p < sh.lastTimerDl, {<<"C05", "deadline_order">>})
+  \cup If(IsTimer(sh, s) /\ FiredDl(sh, ev) < sh.lastTimerDl, {<<"C05", "deadline_order">>})
   \cup If(sh.idlePhase, {<<"C13", "source_cb_after_idles">>})
   \cup If(~sh.synthSeen, {<<"C14", "process_before_before_handle_events">>})
 
@@ -516,6 +521,8 @@ ViolOpret(sh, ev) ==
           {<<"C06", "into_inner_after_removal_failed">>})
   \cup If(ev.op = "dispatch" /\ ev.r = "ok", PendingCheck(sh) \cup IdleEndCheck(sh))
   \cup If(ev.op = "dispatch", ViolPaEnd(sh))
+  \* idles belong to the first dispatch that returns Ok after their insertion: a failing dispatch runs none
+  \cup If(ev.op = "dispatch" /\ ev.r = "err" /\ sh.idleRanNow # {}, {<<"C13", "idle_ran_in_failed_dispatch">>})
   \cup If(ev.op = "dispatch" /\ ev.r = "ok" /\ sh.synthWanted \ (sh.synthDone \cup sh.touched) # {},
           {<<"C14", "synthetic_event_not_delivered">>})
   \cup If(co.ctx = 0 /\ ev.op \notin {"drop_loop", "insert"}, ReleasedCheck(sh))
